@@ -3,6 +3,18 @@ From BU Require Import Lib.Bytes CoinSet.CoinSet.
 From Coq Require Import Permutation Sorted ZifyBool.
 Open Scope Z_scope.
 
+(* ================= the literals of coins.go the theorems depend on =================
+   Each is the value extracted from the Go source into Gen/Xcoinset.v; these six lemmas are where a
+   changed literal (numLow starting at 0, the "+1" of the top-up bound dropped, the rounding test
+   moved, ...) stops the development: every later proof uses them through [lits]. *)
+Lemma lit_numlow_start_eq : lit_numlow_start = 1. Proof. reflexivity. Qed.
+Lemma lit_topup_slack_eq : lit_topup_slack = 1. Proof. reflexivity. Qed.
+Lemma lit_need_pos_eq : lit_need_pos = 0. Proof. reflexivity. Qed.
+Lemma lit_rem_zero_eq : lit_rem_zero = 0. Proof. reflexivity. Qed.
+Lemma lit_skip_va_eq : lit_skip_va = 0. Proof. reflexivity. Qed.
+Lemma lit_mi_start_eq : lit_mi_start = 0. Proof. reflexivity. Qed.
+Ltac lits := rewrite ?lit_numlow_start_eq, ?lit_topup_slack_eq, ?lit_need_pos_eq, ?lit_rem_zero_eq, ?lit_skip_va_eq, ?lit_mi_start_eq in *.
+
 (* ================= arithmetic: what the proofs need of the wrap ================= *)
 Definition wrap_ok (w : Z -> Z) : Prop :=
   w 0 = 0 /\ (forall a b, w (w a + b) = w (a + b)) /\ (forall a b, w (a + w b) = w (a + b))
@@ -151,6 +163,32 @@ Section Totals.
 
   Theorem pop_shift_empty s : cs_list s = [] -> pop w s = (None, s) /\ shift w s = (None, s).
   Proof. intros E. unfold pop, shift. rewrite E. auto. Qed.
+
+  (* what PopCoin / ShiftCoin hand back: nil exactly on the empty set, otherwise the last / first
+     coin, and the set keeps the others in order *)
+  Theorem pop_shift_return s :
+    match fst (pop w s) with
+    | None => cs_list s = []
+    | Some c => cs_list s = cs_list (snd (pop w s)) ++ [c]
+    end
+    /\ match fst (shift w s) with
+       | None => cs_list s = []
+       | Some c => cs_list s = c :: cs_list (snd (shift w s))
+       end.
+  Proof.
+    pose proof (pop_spec s) as Hp. pose proof (shift_spec s) as Hs.
+    destruct (fst (pop w s)), (fst (shift w s)); intuition.
+  Qed.
+
+  (* a transaction built from the set reached by a history spends the outpoints of the deque
+     contents, in order *)
+  Theorem tx_after_history version init ops :
+    let t := tx_of_coins version (run_ops w ops (new_coinset w init)) in
+    map ti_outpoint (tx_in t) = map cid (fold_left deque_step ops init)
+    /\ length (tx_in t) = length (fold_left deque_step ops init).
+  Proof.
+    cbn. rewrite run_ops_list, new_coinset_list, map_map, map_length. split; reflexivity.
+  Qed.
 End Totals.
 
 (* exact arithmetic: the wrap disappears *)
